@@ -264,7 +264,11 @@ TAG_RE = re.compile(r'tag=(\d+)')
 def by_tag(env, e):
     """(kind-class, kind, tag) of an exception object that stems from a scripted response"""
     if id(e) in env.registry:
-        return env.registry[id(e)]
+        t = env.registry[id(e)]
+        # the protocol message itself where the driver must hand out its to_exception() (cassandra.ReadTimeout, ...)
+        if (t[0] == 'retryable' and t[1] in (0, 1, 2)) or (t[0] == 'other_error' and type(e).__name__ == 'InvalidRequestException'):
+            return ('raw_message', t[1], t[2])
+        return t
     m = TAG_RE.search(str(e))
     d = drv()
     ca = d['cassandra']
@@ -295,6 +299,8 @@ def classify_err(env, e):
     t = by_tag(env, e)
     if t and t[0] == 'retryable':
         return [6, t[1], t[2]]
+    if t and t[0] == 'raw_message':
+        return [98, t[1] if t[1] is not None else -1, t[2]]
     if isinstance(e, d['C'].ConnectionException):
         if 'marked down or removed' in str(e):
             return [0]
@@ -328,6 +334,8 @@ def classify_exc(env, hosts, e):
             return [3, t[2]]
         if t[0] == 'unprepared':
             return [4, t[2]]
+        if t[0] == 'raw_message':
+            return [98, t[1] if t[1] is not None else -1, t[2]]
     if isinstance(e, d['cassandra'].DriverException) and 'ID mismatch' in str(e):
         return [6]
     if isinstance(e, ValueError) and 'current keyspace' in str(e):
